@@ -22,6 +22,13 @@ is evaluated independently; the file is the strftime expansion of the option at 
 says which flows are due in which file; after every step they must be a subsequence of the records
 of the durable image (which the real FlowReader must load completely), no matter whether the
 addon has seen the start hook of the flow or whether streaming was enabled at that time.
+
+Reading back is done twice: directly with the real FlowReader (every offset), and the way a user
+loads a file after a crash, through the real ReadFile addon (load_flows_from_path / load_flows in a
+real Master, every flow handed to master.load_flow recorded) for every torn durable image and, per
+file, the offsets around every flow boundary, the middle of every record and a few seeded ones.
+The obligation is the same: exactly the completely written flows in front of the cut, in order,
+then a normal return or FlowReadException.
 """
 from __future__ import annotations
 
@@ -54,10 +61,12 @@ RULE = ("sampled case = a file history: (writer family) 1-6 seeded flows of mixe
         "shutdown, short writes, ENOSPC on the n-th write); after every step every flow that finished (final hook "
         "returned) while stream saving was enabled and the filter matched must be in the durable image of the stream "
         "file of that moment; per case a crash is probed after every add()/step and EVERY truncation "
-        "offset 0..len of every resulting file is loaded with the real FlowReader; non-trivial = at least one file with "
+        "offset 0..len of every resulting file is loaded with the real FlowReader, and torn durable images plus the "
+        "offsets around/inside every record also through the real ReadFile addon in a real Master; non-trivial = at least one file with "
         ">= 1 complete flow was enumerated; distinct = distinct digests of (file layouts, per-step probe results, "
         "outcome histogram)")
 COMPONENTS_REAL = ["io.FlowWriter", "io.FilteredFlowWriter", "io.FlowReader", "io.tnetstring", "addons.save.Save",
+                   "addons.readfile.ReadFile (load_flows_from_path/load_flows -> Master.load_flow)",
                    "Master/AddonManager/Options (hook dispatch, option changes)", "flowfilter",
                    "io.BufferedWriter/BufferedReader (CPython)"]
 COMPONENTS_STUB = ["file system (SimFS: durable image = bytes handed to raw write())", "datetime.today (sim clock)",
@@ -73,7 +82,8 @@ ASSUMPTIONS = ["a process crash loses exactly the bytes still held in Python-lev
 EXPECTED_PROBES = ["offsets_enumerated", "full_runs", "tail_runs", "clean_end", "flow_read_error", "crash_probes",
                    "files_enumerated", "save_hooks", "save_rotations", "save_cmd", "save_done_active", "append_mode",
                    "filtered_out", "process_exit", "crosschecked", "finished_flow_due", "error_without_request_hook",
-                   "stream_enabled_mid_flow", "stream_restarted_mid_flow"]
+                   "stream_enabled_mid_flow", "stream_restarted_mid_flow", "readfile_addon_loads",
+                   "loaded_via_readfile_addon_after_torn_tail"]
 
 FILTERS = [None, None, "~http", "~tcp", "~udp", "~dns", "~websocket", "!~tcp", "~http | ~dns"]
 # Hook histories of one flow, as the proxy layers deliver them (weights in the second column).
@@ -277,6 +287,8 @@ class Ctx:
         self.probes: dict[str, int] = {}
         self.faults: dict[str, int] = {}
         self.log = []
+        self.addon_jobs = []   # (who, where, image, expected canonical states, offsets) for the readfile addon pass
+        self.addon_seen = set()
 
     def viol(self, cls, key, msg):
         sig = (cls, repr(sorted(key.items())))
@@ -324,6 +336,13 @@ def enumerate_truncations(ctx, who, image, expected, reader_kind, full, samples,
     bounds = [0] + [e for _, e in recs]
     n = len(image)
     ctx.probe("files_enumerated")
+    # the readfile addon reads the same truncated images: around every flow boundary, the middle of every record,
+    # the image as it is, and a few seeded offsets
+    offs = {x for b in bounds for x in (b - 1, b, b + 1) if 0 <= x <= n}
+    offs.update((a + b) // 2 for a, b in zip(bounds, bounds[1:]))
+    offs.add(n)
+    offs.update(rnd.randrange(n + 1) for _ in range(6))
+    schedule_addon_loads(ctx, who, "truncation", image, expected, sorted(offs))
     # one instrumented pass over the whole image: does the reader ever look past a record before yielding it?
     tf = TruncFile(image, n)
     no_lookahead = True
@@ -377,6 +396,118 @@ def enumerate_truncations(ctx, who, image, expected, reader_kind, full, samples,
     ctx.log.append(("enum", who, n, len(recs), sorted(hist.items())))
 
 
+class _Loaded:
+    """What master.load_flow received (state captured at that moment)."""
+
+    def __init__(self, state):
+        self.state = state
+
+    def get_state(self):
+        return self.state
+
+
+def schedule_addon_loads(ctx, who, where, image, expected, offsets):
+    """Queue loads of ``image[:t]`` through the real readfile addon (run after the writer's event loop has ended)."""
+    sig = (who, where, hashlib.blake2b(image, digest_size=8).digest(), tuple(offsets))
+    if sig in ctx.addon_seen:
+        return
+    ctx.addon_seen.add(sig)
+    ctx.addon_jobs.append((who, where, image, expected, list(offsets)))
+
+
+def run_addon_loads(ctx, reader_kind):
+    """Reading back after the crash through the path a user takes: the real ReadFile addon (load_flows_from_path /
+    load_flows) inside a real Master, every flow handed to master.load_flow recorded.  Same obligation as for the
+    direct FlowReader: exactly the completely written flows in front of the cut, in order, then a normal return or
+    FlowReadException."""
+    if not ctx.addon_jobs:
+        return
+    from mitmproxy import ctx as mctx
+    from mitmproxy import exceptions, master, options
+    from mitmproxy.addons import readfile as mrf
+
+    missing = object()
+    msgs = []
+
+    class Cap(logging.Handler):
+        def emit(self, record):
+            try:
+                msgs.append(record.getMessage())
+            except Exception:
+                msgs.append(str(record.msg))
+
+    async def body(loop):
+        cap = Cap(level=logging.DEBUG)
+        root = logging.getLogger()
+        root.addHandler(cap)
+        old_ctx = {k: mctx.__dict__.get(k, missing) for k in ("master", "options")}
+        old_open = mrf.__dict__.get("open", missing)
+        m = None
+        try:
+            with contextlib.redirect_stderr(io.StringIO()):
+                m = master.Master(options.Options(), event_loop=loop)
+                rf = mrf.ReadFile()
+                m.addons.add(rf)
+                loaded = []
+                real_load_flow = m.load_flow
+
+                async def load_flow(f):
+                    loaded.append(_Loaded(f.get_state()))
+                    await real_load_flow(f)
+                m.load_flow = load_flow
+                for who, where, image, expected, offsets in ctx.addon_jobs:
+                    recs, _ = M.tn_scan(image)
+                    bounds = [0] + [e for _, e in recs]
+                    n = len(image)
+                    hist = {}
+                    for t in offsets:
+                        j = min(bisect.bisect_right(bounds, t) - 1, len(recs))
+                        del loaded[:]
+                        del msgs[:]
+                        cnt, exc = None, None
+                        try:
+                            if reader_kind == "buffered":
+                                rfs = simfs.SimFS()
+                                rfs.put("/sim/rf.mitm", image[:t])
+                                mrf.open = rfs.open
+                                cnt = await rf.load_flows_from_path("/sim/rf.mitm")
+                            else:
+                                cnt = await rf.load_flows(TruncFile(image, t))
+                            outcome = "end"
+                        except exceptions.FlowReadException as e:
+                            outcome, exc = "flow_read_error", e
+                        except Exception as e:
+                            outcome, exc = type(e).__name__, e
+                        ctx.probe("readfile_addon_loads")
+                        check_loaded(ctx, f"{who}+readfile_addon", where, list(loaded), outcome, exc, expected, j, t, n)
+                        if outcome == "end" and cnt != len(loaded):
+                            ctx.viol("readfile_count_wrong", {"writer": f"{who}+readfile_addon", "at": where},
+                                     f"readfile addon: load_flows returned {cnt} for the image cut at byte {t}/{n} but "
+                                     f"handed {len(loaded)} flows to master.load_flow")
+                        if t not in bounds and j >= 1 and len(loaded) == j:
+                            ctx.probe("loaded_via_readfile_addon_after_torn_tail")
+                        if t in bounds:
+                            hist[outcome] = hist.get(outcome, 0) + 1
+                    # digest: only what does not depend on the order of the records (Save.done() writes the still
+                    # active flows in set order, so offsets inside the image fall into different records)
+                    ctx.log.append(("readfile", who, where, n, len(recs), sorted(hist.items())))
+        finally:
+            root.removeHandler(cap)
+            if old_open is missing:
+                mrf.__dict__.pop("open", None)
+            else:
+                mrf.open = old_open
+            for k, v in old_ctx.items():
+                if v is missing:
+                    mctx.__dict__.pop(k, None)
+                else:
+                    setattr(mctx, k, v)
+            if m is not None:
+                m._legacy_log_events.uninstall()
+
+    vloop.run(body)
+
+
 def check_image(ctx, who, where, image, done, maybe, reader_kind, step, must=()):
     """Crash probe: ``image`` is what a crash right now leaves behind.  ``done`` = canonical states whose write has
     completed, in order; ``maybe`` = canonical states of writes that failed or were cut short (may be present);
@@ -426,6 +557,9 @@ def check_image(ctx, who, where, image, done, maybe, reader_kind, step, must=())
                  f"{len(must)} finished flows due)")
     got, outcome, exc = run_reader(_reader_file(reader_kind, image, len(image)), len(recs) + 2)
     check_loaded(ctx, who, where, got, outcome, exc, stored, len(recs), len(image), len(image))
+    if tail != len(image) and None not in stored:
+        # a torn write is what the crash left behind: later also loaded through the readfile addon
+        schedule_addon_loads(ctx, who, "torn_tail", image, stored, [len(image)])
     return recs, stored
 
 
@@ -731,6 +865,8 @@ def execute(sc):
             exec_writer(ctx, sc)
         else:
             exec_save(ctx, sc)
+        if not ctx.violations:
+            run_addon_loads(ctx, sc.get("reader", "bytesio"))
     nontrivial = ctx.probes.get("files_enumerated", 0) > 0 and ctx.probes.get("flow_read_error", 0) > 0
     log = [e for e in ctx.log if e[0] != "probe"] + [("probes", sorted(
         (e[1] if isinstance(e[1], int) else -1, sorted((p, c) for p, _, c in e[2])) for e in ctx.log if e[0] == "probe"))]
